@@ -191,7 +191,7 @@ __CPROVER_requires(g_rb.na <= RB_NA && g_rb.ne <= RB_NE)
 __CPROVER_requires(__CPROVER_rw_ok(t->area, (g_rb.na + 1) * sizeof(RegisterArea)))
 __CPROVER_requires(__CPROVER_rw_ok(t->entry, (g_rb.ne + 1) * sizeof(RegisterEntry)))
 __CPROVER_requires(RB_AREA_IS_END(&t->area[g_rb.na]) && RB_ENTRY_IS_END(&t->entry[g_rb.ne]))
-__CPROVER_assigns(t->flags, t->areas, t->entries;
+__CPROVER_assigns(t->flags, t->areas, t->entries, st_wr_verdict;
     g_rb.na > 0: __CPROVER_object_upto(t->area, g_rb.na * sizeof(RegisterArea));
     g_rb.ne > 0: __CPROVER_object_upto(t->entry, g_rb.ne * sizeof(RegisterEntry));
     RB_ASSIGN_MEM(t, 0); RB_ASSIGN_MEM(t, 1); RB_ASSIGN_MEM(t, 2); RB_ASSIGN_MEM(t, 3); RB_ASSIGN_MEM(t, 4); RB_ASSIGN_MEM(t, 5))
